@@ -39,15 +39,19 @@
 typedef ssize_t (*enc_fn)(MPT_STRUCT(encode_state) *, const struct iovec *, const struct iovec *);
 typedef int (*dec_fn)(MPT_STRUCT(decode_state) *, const struct iovec *, size_t);
 
+static int enc_code(const char *kind)
+{
+	if (!strcmp(kind, "cmd"))    return MPT_ENUM(EncodingCommand);
+	if (!strcmp(kind, "cobs"))   return MPT_ENUM(EncodingCobs);
+	if (!strcmp(kind, "cobs_r")) return MPT_ENUM(EncodingCobsInline);
+	if (!strcmp(kind, "zpe"))    return MPT_ENUM(EncodingCobs) | MPT_ENUM(EncodingCompress);
+	if (!strcmp(kind, "zpe_r"))  return MPT_ENUM(EncodingCobsInline) | MPT_ENUM(EncodingCompress);
+	return -1;
+}
 static enc_fn get_enc(const char *kind, int m)
 {
-	if (!strcmp(kind, "cmd")) return mpt_encode_string;
-	if (m == 0) {
-		if (!strcmp(kind, "cobs"))   return mpt_encode_cobs;
-		if (!strcmp(kind, "cobs_r")) return mpt_encode_cobs_r;
-		if (!strcmp(kind, "zpe"))    return mpt_encode_cobs_zpe;
-		if (!strcmp(kind, "zpe_r"))  return mpt_encode_cobs_zpe_r;
-	}
+	/* shipped codecs: through the library's own selection (convert/encoder.c) */
+	if (m == 0 || !strcmp(kind, "cmd")) return enc_code(kind) < 0 ? 0 : mpt_message_encoder(enc_code(kind));
 	if (m == 5) {
 		if (!strcmp(kind, "cobs"))   return seam_enc_cobs_5;
 		if (!strcmp(kind, "cobs_r")) return seam_enc_cobs_r_5;
@@ -64,13 +68,8 @@ static enc_fn get_enc(const char *kind, int m)
 }
 static dec_fn get_dec(const char *kind, int m)
 {
-	if (!strcmp(kind, "cmd")) return mpt_decode_command;
-	if (m == 0) {
-		if (!strcmp(kind, "cobs"))   return mpt_decode_cobs;
-		if (!strcmp(kind, "cobs_r")) return mpt_decode_cobs_r;
-		if (!strcmp(kind, "zpe"))    return mpt_decode_cobs_zpe;
-		if (!strcmp(kind, "zpe_r"))  return mpt_decode_cobs_zpe_r;
-	}
+	/* shipped codecs: through the library's own selection (convert/decoder.c) */
+	if (m == 0 || !strcmp(kind, "cmd")) return enc_code(kind) < 0 ? 0 : mpt_message_decoder(enc_code(kind));
 	if (m == 5) {
 		if (!strcmp(kind, "cobs"))   return seam_dec_cobs_5;
 		if (!strcmp(kind, "cobs_r")) return seam_dec_cobs_r_5;
@@ -84,15 +83,6 @@ static dec_fn get_dec(const char *kind, int m)
 		if (!strcmp(kind, "zpe_r"))  return seam_dec_zpe_r_3;
 	}
 	return 0;
-}
-static int enc_code(const char *kind)
-{
-	if (!strcmp(kind, "cmd"))    return MPT_ENUM(EncodingCommand);
-	if (!strcmp(kind, "cobs"))   return MPT_ENUM(EncodingCobs);
-	if (!strcmp(kind, "cobs_r")) return MPT_ENUM(EncodingCobsInline);
-	if (!strcmp(kind, "zpe"))    return MPT_ENUM(EncodingCobs) | MPT_ENUM(EncodingCompress);
-	if (!strcmp(kind, "zpe_r"))  return MPT_ENUM(EncodingCobsInline) | MPT_ENUM(EncodingCompress);
-	return -1;
 }
 
 /* guarded allocation: [GUARD][n bytes][GUARD]; start address = a mod 16 */
